@@ -4,7 +4,17 @@ import os
 import core
 
 LEVEL = "model_checking"
-MATCHERS = {}
+LEGACY = {"cl21", "cl21+O", "s21", "cl22", "cl22+O", "cl23", "cl23+O"}
+
+
+def m_legacy_zero_leading(v, params):
+    # the finding C01/C02-K3 seen through a symbol-table entry: in legacy integer mode a zero-leading-byte literal (0x00,
+    # 0x0006) in a function is renumbered by the optimiser / constant folder, so the code extracted through the entry returns
+    # nil / 6 where calling the function in the source returns 0x00 / 0x0006
+    return v["kind"] == "extracted-code-differs" and v.get("zero_leading_literal") and v["build"] in LEGACY
+
+
+MATCHERS = {"legacy_zero_leading": m_legacy_zero_leading}
 
 
 def _drive(acc, n):
@@ -21,7 +31,8 @@ def _drive(acc, n):
     for (l, kind, which) in res["bad"]:
         ent = tr[l - 1]["entries"][which - 1] if isinstance(which, int) else None
         acc.violations.append({"property": "C13", "kind": kind, "source": cs[l - 1]["source"], "build": cs[l - 1]["build"],
-                               "entry": ent, "function": which if not isinstance(which, int) else ent["name"], "symbols": cs[l - 1]["symbols"]})
+                               "entry": ent, "function": which if not isinstance(which, int) else ent["name"], "symbols": cs[l - 1]["symbols"],
+                               "zero_leading_literal": cs[l - 1].get("zero_leading_literal", False)})
     os.remove(trace)
     os.remove(cases)
 
@@ -45,7 +56,7 @@ def replay(path):
     v = rec["violation"]
     acc = core.Acc("C13", "quick", LEVEL)
     _drive(acc, 100)
-    vs = [x for x in acc.violations if x["kind"] == v["kind"]]
+    vs = [x for x in acc.violations if x["kind"] == v["kind"] and not m_legacy_zero_leading(x, {})]
     if vs:
         print(f"VIOLATION property=C13 replay={path}")
         print("  " + json.dumps({k: vs[0][k] for k in vs[0] if k != "symbols"})[:700])
